@@ -592,6 +592,13 @@ def trust_sig(ctx, rel, qual, fn, rule="TRUST-SIG"):
     n = 0
     for c in ast.walk(fn):
         if isinstance(c, ast.Call) and isinstance(c.func, ast.Name) and c.func.id == "cse":
+            # the temporaries have names of their own: sympy's default stream is x0, x1, ... and only skips names that occur in the expressions it is
+            # given -- by then the model's symbols have been replaced by accessors (C++) / are the block's argument names (Python), so a state or
+            # reading called x0 collides with a temporary (a local declared twice / a duplicate argument)
+            if not any(k.arg == "symbols" for k in c.keywords) and len(c.args) < 2:
+                ctx.oblige("TMP-4", f"{rel}:{qual}", "cse() without symbols=", False, file=rel, func=qual, construct="cse default symbols",
+                           msg="the CSE temporaries take sympy's default names x0, x1, ...: a model whose states / readings are called x0, x1, ... gets a temporary "
+                               "and an output (or argument) of the same name", line=c.lineno)
             # the temporaries' names come from a stream created for this very call: a stream kept on the object / module continues
             # counting across emissions, so the same definition prints different names the second time
             for k in c.keywords:
